@@ -26,7 +26,7 @@ func (c19) ID() string { return "C19" }
 func (c19) Info(tier string) fw.Info {
 	return fw.Info{
 		Level: "translation_validation",
-		Rule: "programs = shipped examples/*.hms and tests/*.hms (every imported module printed too) + seeded well-typed generator programs (hv/prog) + a hand-written printer-coverage set (every expression/statement/type/item form, all string escapes, non-identifier object keys, float shapes, match defaults, pub items, singletons/impl/templates/triggers/annotations) + optimizer programs with code after diverging statements; " +
+		Rule: "programs = shipped examples/*.hms and tests/*.hms (every imported module printed too) + seeded well-typed generator programs (hv/prog) + a hand-written printer-coverage set (every expression/statement/type/item form, all string escapes, non-identifier object keys, float shapes, match defaults, pub items, singletons/impl/templates/triggers/annotations) + optimizer programs with code after diverging statements + a string family (every position whose content the printers render: literal, match arm, global, object key, object type field x every ASCII code point, representatives of every other code point class, seeded random strings in random legal spellings) + a divergence family (a never-typed expression in every expression position, strict and conditionally evaluated, as a statement of a top-level block followed by further statements, driven through the diverging and the non-diverging path); " +
 			"each accepted program P is translated by one of: parser-AST printer (Program.String), analysed-tree printer (AnalyzedProgram.String), optimizer.Optimize (executed on the VM, and for optimizer/generated programs also by the tree-walking interpreter). The translation must be accepted, run with the same effects and outcome (class, kind, message) as P, and for the printers print(parse(print(P))) must equal print(P). " +
 			"non-trivial = P accepted, deterministic in two runs, and producing output or a non-ok outcome; distinct = distinct (source text, translation)",
 		Assumptions: []string{
@@ -110,7 +110,14 @@ func (c19) Cases(tier string, seed uint64) []fw.Case {
 	var cases []fw.Case
 	add := func(id, kind string, pl Payload, tags []string) {
 		modes := allModes
-		if kind == "optimizer" || kind == "gen" || kind == "gen-poisoned" {
+		if kind == "strings" {
+			// string content only concerns the printers (the optimizer does not look at literals)
+			modes = []string{ModePAst, ModeAAst}
+		}
+		if kind == "divergence-opt" {
+			modes = []string{ModeOpt, ModeOptT}
+		}
+		if kind == "optimizer" || kind == "divergence" || kind == "gen" || kind == "gen-poisoned" {
 			// the optimizer is also validated with the interpreter as executor (optimizer programs
 			// go through the printers too: dead code is a printer input like any other)
 			modes = append(append([]string{}, allModes...), ModeOptT)
@@ -144,6 +151,16 @@ func (c19) Cases(tier string, seed uint64) []fw.Case {
 			kind = "hand-optional"
 		}
 		add("c19-"+h.Kind+"-"+h.Name, kind, Payload{Name: h.Name, Source: h.Source}, dedupe(tags))
+	}
+	// (e) program families: string content sweep, diverging expressions in every position
+	fs := FamilyPrograms(tier, seed)
+	fsrcs := make([]map[string]string, len(fs))
+	for i, h := range fs {
+		fsrcs[i] = h.Source
+	}
+	ftags := tagsFor(fsrcs)
+	for i, h := range fs {
+		add("c19-"+h.Kind+"-"+h.Name, h.Kind, Payload{Name: h.Name, Source: h.Source}, dedupe(append(append([]string{"family:" + h.Kind}, h.Tags...), ftags[i]...)))
 	}
 	// (b) generated programs
 	n := 400
